@@ -192,3 +192,33 @@ Qed.
 Lemma bad_value_not_strict l i : find_char 58 l = Some (S i) ->
   existsb (fun ch => mem ch value_badchars) (strip is_ows (skipn (S (S i)) l)) = true -> strict_field_line l = false.
 Proof. intros H Hb. unfold strict_field_line. rewrite H, Hb. cbn. rewrite andb_false_r. reflexivity. Qed.
+
+(* the fuel of parse_headers is always sufficient: EOutOfFuel is never its answer *)
+Lemma span_ws_length : forall rest conts rest', span_ws rest = (conts, rest') -> (length rest' <= length rest)%nat.
+Proof.
+  induction rest as [|l t IH]; intros conts rest' H; cbn [span_ws] in H; [injection H as <- <-; cbn; lia|].
+  destruct (starts_ws l).
+  - destruct (span_ws t) as [a b] eqn:E. injection H as <- <-. specialize (IH _ _ eq_refl). cbn. lia.
+  - injection H as <- <-. lia.
+Qed.
+Theorem parse_headers_loop_fuel : forall c ft fuel lines n seen https acc,
+    (length lines < fuel)%nat -> parse_headers_loop c ft fuel lines n seen https acc <> inr EOutOfFuel.
+Proof.
+  intros c ft. induction fuel as [|fuel IH]; intros lines n seen https acc Hf; [lia|].
+  cbn [parse_headers_loop]. destruct lines as [|curr rest]; [discriminate|].
+  destruct (eff_fields c <=? n); [discriminate|].
+  destruct (find_char 58 curr) as [[|i]|]; [discriminate| |discriminate].
+  destruct (negb (is_token _)); [discriminate|].
+  destruct (span_ws rest) as [conts rest'] eqn:Esp. pose proof (span_ws_length _ _ _ Esp) as Hl. cbn [length] in Hf.
+  destruct (_ && negb (permit_obsolete_folding c)); [discriminate|].
+  destruct (_ && ((0 <? eff_field_size c) && _)); [discriminate|].
+  destruct (existsb _ _); [discriminate|].
+  destruct ((0 <? eff_field_size c) && _); [discriminate|].
+  match goal with |- context [match ?sr with inl _ => _ | inr _ => _ end] => destruct sr as [[seen' https']|e] eqn:Esr end.
+  - destruct (mem 95 _); [destruct (bmem _ _ || bmem _ _); [apply IH; lia|]; destruct (header_map c =? 2); [apply IH; lia|];
+                          destruct (header_map c =? 0); [apply IH; lia|discriminate]|apply IH; lia].
+  - destruct (if negb ft && fwd_trusted c then assoc _ _ else None); [|discriminate Esr].
+    destruct seen; [destruct (Bool.eqb _ _); [discriminate Esr|injection Esr as <-; discriminate]|discriminate Esr].
+Qed.
+Corollary parse_headers_never_out_of_fuel c ft https data : parse_headers c ft https data <> inr EOutOfFuel.
+Proof. unfold parse_headers. apply parse_headers_loop_fuel. lia. Qed.
